@@ -1,0 +1,28 @@
+//go:build verif
+
+// Package verifhook provides gate points for the verification harness (build tag verif).
+// At(point, key) calls the controller installed by the harness, which may block the
+// calling goroutine to realise a particular interleaving; with no controller installed it
+// does nothing.  Without the build tag At is an empty function (hook_off.go).
+package verifhook
+
+import "sync/atomic"
+
+type Controller func(point, key string)
+
+var ctrl atomic.Pointer[Controller]
+
+// Install sets (or, with nil, removes) the controller.
+func Install(c Controller) {
+	if c == nil {
+		ctrl.Store(nil)
+		return
+	}
+	ctrl.Store(&c)
+}
+
+func At(point, key string) {
+	if c := ctrl.Load(); c != nil {
+		(*c)(point, key)
+	}
+}
